@@ -17,7 +17,7 @@ from pyopenapi_gen.core.postprocess_manager import PostprocessManager
 from pyopenapi_gen.core.spec_fetcher import fetch_spec
 from pyopenapi_gen.core.warning_collector import WarningCollector
 from pyopenapi_gen.emitters.client_emitter import ClientEmitter
-from pyopenapi_gen.emitters.core_emitter import CoreEmitter
+from pyopenapi_gen.emitters.core_emitter import RUNTIME_FILES, CoreEmitter
 from pyopenapi_gen.emitters.endpoints_emitter import EndpointsEmitter
 from pyopenapi_gen.emitters.exceptions_emitter import ExceptionsEmitter
 from pyopenapi_gen.emitters.mocks_emitter import MocksEmitter
@@ -290,7 +290,9 @@ class ClientGenerator:
                 if not no_postprocess:
                     self._log_progress("Running post-processing on temporary files", "POSTPROCESS_TEMP")
                     # Pass the temp project root to PostprocessManager
-                    PostprocessManager(str(tmp_project_root_for_diff)).run([str(p) for p in temp_generated_files])
+                    PostprocessManager(str(tmp_project_root_for_diff)).run(
+                        self._postprocess_targets(temp_generated_files, tmp_core_dir_for_diff)
+                    )
                     self._log_progress(f"Post-processed {len(temp_generated_files)} files", "POSTPROCESS_TEMP")
 
                 # --- Compare final output dirs with the temp output dirs ---
@@ -513,7 +515,7 @@ class ClientGenerator:
             # Post-processing applies to all generated files
             if not no_postprocess:
                 self._log_progress("Running post-processing on generated files", "POSTPROCESS")
-                PostprocessManager(str(project_root)).run([str(p) for p in generated_files])
+                PostprocessManager(str(project_root)).run(self._postprocess_targets(generated_files, core_dir))
                 self._log_progress(f"Post-processed {len(generated_files)} files", "POSTPROCESS")
 
         total_time = time.time() - self.start_time
@@ -533,6 +535,13 @@ class ClientGenerator:
                     self._log_progress(f"{stage}: {duration:.2f}s", None)
 
         return generated_files
+
+    @staticmethod
+    def _postprocess_targets(files: List[Path], core_dir: Path) -> List[str]:
+        """Files to hand to post-processing: everything generated except the runtime modules, which are verbatim
+        copies of the modules shipped with the generator and must stay byte-identical to them."""
+        verbatim = {(core_dir / rel_dst.replace("core/", "", 1)).resolve() for _, _, rel_dst in RUNTIME_FILES}
+        return [str(p) for p in files if Path(p).resolve() not in verbatim]
 
     def _load_spec(self, path_or_url: str) -> dict[str, Any]:
         """
